@@ -26,6 +26,10 @@ pub struct PNode {
 pub struct Program {
     pub leaves: Vec<Leaf>,
     pub nodes: Vec<PNode>,
+    /// handle deviations that do not change the mathematics: after node `k` has been built
+    /// (k = index into `nodes`), value `v` is re-bound to itself through `.tracked()`.
+    /// Only applied to values that are already tracked results (a semantic no-op).
+    pub retrack: Vec<(usize, usize)>,
 }
 
 impl Program {
@@ -43,6 +47,11 @@ impl Program {
         for (i, n) in self.nodes.iter().enumerate() {
             let a: Vec<String> = n.args.iter().map(|a| format!("v{}", a)).collect();
             s.push_str(&format!("v{}={}({});", self.nl() + i, n.op.name(), a.join(",")));
+            for (k, v) in &self.retrack {
+                if *k == i {
+                    s.push_str(&format!("v{}=v{}.tracked();", v, v));
+                }
+            }
         }
         s
     }
@@ -200,6 +209,13 @@ pub fn exec_impl(p: &Program, mask: &[bool]) -> Vec<Array> {
             apply_impl(&n.op, &refs, p.nl() + k)
         };
         vals.push(r);
+        for (kk, v) in &p.retrack {
+            if *kk == k {
+                let dummy = Array::from(vec![0.0 as corgi::numbers::Float]);
+                let h = std::mem::replace(&mut vals[*v], dummy);
+                vals[*v] = h.tracked();
+            }
+        }
     }
     vals
 }
